@@ -1019,9 +1019,20 @@ class Variable(CanBehaveLikeAVariable[T]):
     def _generate_combinations_for_child_vars_values_(
         self, sources: Optional[Dict[int, HashedValue]] = None
     ):
-        yield from generate_combinations(
-            {k: var._evaluate__(sources) for k, var in self._child_vars_.items()}
-        )
+        # The arguments are evaluated one after the other, each under the bindings made by the ones before it:
+        # two arguments that depend on the same not yet bound variable (P(x.a, x.b)) must see the same value of it.
+        child_vars = list(self._child_vars_.items())
+
+        def evaluate_from(index, bindings, chosen):
+            if index == len(child_vars):
+                yield dict(chosen)
+                return
+            name, var = child_vars[index]
+            for result in var._evaluate__(bindings):
+                chosen[name] = result
+                yield from evaluate_from(index + 1, result.bindings, chosen)
+
+        yield from evaluate_from(0, sources or {}, {})
 
     def _process_output_and_update_values_(
         self, instance: Any, kwargs: Dict[str, OperationResult]
